@@ -46,7 +46,7 @@ def overrideF (milli : Int) : Float :=
   let a := Float.ofInt milli / 1000.0
   if a < 1.0 then -1.0 else truncate3F a
 
-/-- `get_alpha_lmo(x)` (util.cpp 251-273) -/
+/-- `get_alpha_lmo(x)` (util.cpp 257-279) -/
 def alphaLmoX (x : Nat) (alpha0 : Float) : Float :=
   let x16 := (irootN 6 x).toFloat
   let alpha := if alpha0 < 1.0 then
@@ -56,7 +56,7 @@ def alphaLmoX (x : Nat) (alpha0 : Float) : Float :=
   let alpha := truncate3F (inBetweenF 1.0 alpha x16)
   inBetweenF 1.0 alpha x16
 
-/-- `get_alpha_deleglise_rivat(x)` (util.cpp 280-319) -/
+/-- `get_alpha_deleglise_rivat(x)` (util.cpp 285-323) -/
 def alphaDrX (x : Nat) (alpha0 : Float) : Float :=
   let x16 := (irootN 6 x).toFloat
   let alpha := if alpha0 < 1.0 then
@@ -70,7 +70,7 @@ def alphaDrX (x : Nat) (alpha0 : Float) : Float :=
   let alpha := truncate3F (inBetweenF 1.0 alpha x16)
   inBetweenF 1.0 alpha x16
 
-/-- `get_alpha_gourdon(x)` (util.cpp 332-399) -/
+/-- `get_alpha_gourdon(x)` (util.cpp 334-407) -/
 def alphaGourdonX (x : Nat) (ay0 az0 : Float) : Float × Float :=
   let x16 := (irootN 6 x).toFloat
   let logx := Float.log x.toFloat
